@@ -24,7 +24,11 @@ type c18FCall struct {
 	Pre  int  `json:"pre,omitempty"`  // delay code before the call
 	In   int  `json:"in,omitempty"`   // delay code inside the callback
 	Fail bool `json:"fail,omitempty"` // callback returns an error
+	Boom bool `json:"boom,omitempty"` // callback panics (the calling goroutine recovers)
 }
+
+// c18Panic is the value thrown by panicking callbacks.
+type c18Panic struct{ id int64 }
 
 type c18FScn struct {
 	Kind    string       `json:"kind"` // sf | lc
@@ -56,6 +60,7 @@ func c18GenFlight(r interface{ Intn(int) int }, kind string) c18FScn {
 	}
 	// one scenario-wide flavour of callback length so that overlap is frequent
 	long := r.Intn(3) == 0
+	booms := r.Intn(2) == 0 // half of the scenarios contain panicking callbacks
 	for c := 0; c < nclients; c++ {
 		var calls []c18FCall
 		for j := 0; j < percl; j++ {
@@ -63,7 +68,11 @@ func c18GenFlight(r interface{ Intn(int) int }, kind string) c18FScn {
 			if long && r.Intn(2) == 0 {
 				in = 8 + r.Intn(4)
 			}
-			calls = append(calls, c18FCall{K: r.Intn(sc.Keys), Ex: r.Intn(2) == 0, Pre: c18RandDelay(r), In: in, Fail: r.Intn(6) == 0})
+			fc := c18FCall{K: r.Intn(sc.Keys), Ex: r.Intn(2) == 0, Pre: c18RandDelay(r), In: in, Fail: r.Intn(6) == 0}
+			if booms && r.Intn(6) == 0 {
+				fc.Boom, fc.Fail = true, false
+			}
+			calls = append(calls, fc)
 		}
 		sc.Clients = append(sc.Clients, calls)
 	}
@@ -81,6 +90,9 @@ type c18FRec struct {
 	errID            int64 // 0 = nil error
 	errOther         string
 	fresh            bool
+	nilRes           bool // returned (nil, nil): what the waiters of a panicked flight receive
+	panicked         bool // the call panicked (recovered by the client goroutine)
+	ownPanic         bool // ... with the value thrown by a harness callback
 }
 
 type c18FExec struct {
@@ -89,6 +101,7 @@ type c18FExec struct {
 	e1, e2    int64
 	by, byIdx int
 	fail      bool
+	boom      bool
 }
 
 func c18ErrID(err error) (int64, string) {
@@ -120,6 +133,12 @@ func c18RunFlight(m *vk.M, idx int, sc c18FScn) bool {
 		wg     sync.WaitGroup
 		start  = make(chan struct{})
 		gate   = c18NewGate(int32(len(sc.Clients)))
+		// progress flags read by the watchdog path while clients may still be parked
+		waitKey   = make([]int32, len(sc.Clients)) // key+1 the client is calling Do with, 0 = not in a call
+		entered   = make([]int32, len(sc.Clients)) // the client's callback has been entered
+		inFn      [4]int32                         // callbacks currently running, per key
+		panicDone [4]int64                         // stamp at which a panicked call on the key was back at its caller
+		panicBy   [4]int32                         // client+1 of that call
 	)
 	recs := make([][]c18FRec, len(sc.Clients))
 	for ci := range sc.Clients {
@@ -133,6 +152,8 @@ func c18RunFlight(m *vk.M, idx int, sc c18FScn) bool {
 				c, j := c, j
 				key := fmt.Sprintf("k%d", c.K)
 				fn := func() (any, error) {
+					atomic.StoreInt32(&entered[ci], 1)
+					atomic.AddInt32(&inFn[c.K], 1)
 					e1 := vk.Seq()
 					id := atomic.AddInt64(&nextID, 1)
 					c18Delay(c.In)
@@ -142,37 +163,69 @@ func c18RunFlight(m *vk.M, idx int, sc c18FScn) bool {
 					}
 					e2 := vk.Seq()
 					mu.Lock()
-					execs = append(execs, c18FExec{id: id, key: c.K, e1: e1, e2: e2, by: ci, byIdx: j, fail: c.Fail})
+					execs = append(execs, c18FExec{id: id, key: c.K, e1: e1, e2: e2, by: ci, byIdx: j, fail: c.Fail, boom: c.Boom})
 					mu.Unlock()
+					atomic.AddInt32(&inFn[c.K], -1)
+					if c.Boom {
+						panic(c18Panic{id})
+					}
 					return id, err
 				}
 				c18Delay(c.Pre)
-				rec := c18FRec{client: ci, idx: j, key: c.K}
+				rec := c18FRec{client: ci, idx: j, key: c.K, ex: sf != nil && c.Ex}
 				var v any
 				var err error
-				switch {
-				case sf != nil && c.Ex:
-					rec.ex = true
-					rec.call = vk.Seq()
-					v, rec.fresh, err = sf.DoEx(key, fn)
-					rec.ret = vk.Seq()
-				case sf != nil:
-					rec.call = vk.Seq()
-					v, err = sf.Do(key, fn)
-					rec.ret = vk.Seq()
-				default:
-					rec.call = vk.Seq()
-					v, err = lc.Do(key, fn)
-					rec.ret = vk.Seq()
+				atomic.StoreInt32(&entered[ci], 0)
+				atomic.StoreInt32(&waitKey[ci], int32(c.K+1))
+				rec.call = vk.Seq()
+				pv, panicked := vk.Recover(func() {
+					switch {
+					case sf != nil && c.Ex:
+						v, rec.fresh, err = sf.DoEx(key, fn)
+					case sf != nil:
+						v, err = sf.Do(key, fn)
+					default:
+						v, err = lc.Do(key, fn)
+					}
+				})
+				rec.ret = vk.Seq()
+				atomic.StoreInt32(&waitKey[ci], 0)
+				if panicked {
+					rec.panicked = true
+					_, rec.ownPanic = pv.(c18Panic)
+					atomic.StoreInt32(&panicBy[c.K], int32(ci+1))
+					atomic.StoreInt64(&panicDone[c.K], rec.ret)
+				} else {
+					rec.val, rec.valOK = v.(int64)
+					rec.errID, rec.errOther = c18ErrID(err)
+					rec.nilRes = v == nil && err == nil
 				}
-				rec.val, rec.valOK = v.(int64)
-				rec.errID, rec.errOther = c18ErrID(err)
 				recs[ci][j] = rec
 			}
 		}(ci)
 	}
 	close(start)
 	if !c18Join(&wg) {
+		// "each executes; a later call always executes afresh": a locked call that is still
+		// parked although no callback of its key is running, its own callback was never
+		// entered, and a panicked predecessor on that key has demonstrably finished (it is
+		// back at its caller, stamp recorded) will never execute — that is the violation.
+		// Anything else that is merely slow/blocked stays inconclusive.
+		if sc.Kind == "lc" {
+			for ci := range waitKey {
+				k := atomic.LoadInt32(&waitKey[ci])
+				if k == 0 || atomic.LoadInt32(&entered[ci]) != 0 {
+					continue
+				}
+				if done := atomic.LoadInt64(&panicDone[k-1]); done != 0 && atomic.LoadInt32(&inFn[k-1]) == 0 {
+					parked := len(vk.GoroutinesIn("syncx.(*lockedGroup).Do"))
+					m.Violate("C18:lockedcalls:blocked-after-panic", desc,
+						"client %d has been inside LockedCalls.Do(k%d) for more than %v without its callback being entered, although no callback of that key is running and the call of client %d, whose callback panicked, returned to its caller at stamp %d: calls behind a panicked call never execute (%d goroutines parked in lockedGroup.Do)",
+						ci, k-1, c18Watchdog, atomic.LoadInt32(&panicBy[k-1])-1, done, parked)
+					return false
+				}
+			}
+		}
 		m.Inconclusive("case %d (%s): clients did not finish within %v", idx, sc.Kind, c18Watchdog)
 		return false
 	}
@@ -189,7 +242,7 @@ func c18RunFlight(m *vk.M, idx int, sc c18FScn) bool {
 		ranFor[[2]int{e.by, e.byIdx}] = append(ranFor[[2]int{e.by, e.byIdx}], e)
 		perKey[e.key] = append(perKey[e.key], e)
 	}
-	var ncalls, shared, contended int
+	var ncalls, shared, contended, npanics, nforeign, nwaitPanic int
 	served := map[int64][]*c18FRec{} // execution id -> calls that received its result without executing
 	violated := false
 	fail := func(class, format string, a ...any) {
@@ -223,6 +276,14 @@ func c18RunFlight(m *vk.M, idx int, sc c18FScn) bool {
 			fail("callback-ran-twice", "client %d call %d (key k%d): its callback ran %d times", x.client, x.idx, x.key, len(ran))
 			continue
 		}
+		if x.panicked {
+			// a panicking callback has no result to compare; the panic must be the callback's own
+			npanics++
+			if !x.ownPanic || len(ran) == 0 {
+				nforeign++
+			}
+			continue
+		}
 		if x.errID < 0 {
 			fail("foreign-error", "client %d call %d: returned error %q which no callback produced", x.client, x.idx, x.errOther)
 			continue
@@ -248,6 +309,24 @@ func c18RunFlight(m *vk.M, idx int, sc c18FScn) bool {
 		}
 		if x.ex && x.fresh != (len(ran) == 1) {
 			fail("fresh-flag", "client %d call %d (key k%d): DoEx fresh=%v but the call's callback ran %d times", x.client, x.idx, x.key, x.fresh, len(ran))
+			continue
+		}
+		if len(ran) == 0 && x.nilRes {
+			// (nil, nil) without executing: legal only for a waiter of a flight whose callback
+			// panicked, i.e. some panicked execution of this key by an overlapping call
+			okWaiter := false
+			for _, e := range perKey[x.key] {
+				a := &recs[e.by][e.byIdx]
+				if e.boom && a != x && (c18Interval{a.call, a.ret}).intersects(c18Interval{x.call, x.ret}) {
+					okWaiter = true
+					break
+				}
+			}
+			if !okWaiter {
+				fail("result-from-no-execution", "client %d call %d (key k%d) [%d,%d] returned (nil, nil) without executing and no panicked execution of that key overlaps it", x.client, x.idx, x.key, x.call, x.ret)
+			} else {
+				nwaitPanic++
+			}
 			continue
 		}
 		e, found := byID[x.val]
@@ -307,6 +386,11 @@ func c18RunFlight(m *vk.M, idx int, sc c18FScn) bool {
 
 	m.Count(name+"_calls", int64(ncalls))
 	m.Count(name+"_executions", int64(len(execs)))
+	m.Count(name+"_calls_panicked_and_recovered", int64(npanics))
+	m.Count(name+"_panics_not_thrown_by_own_callback", int64(nforeign))
+	if sc.Kind == "sf" {
+		m.Count("singleflight_waiters_released_by_panicked_flight", int64(nwaitPanic))
+	}
 	if sc.Kind == "sf" {
 		m.Count("singleflight_shared_results", int64(shared))
 	} else {
@@ -346,6 +430,7 @@ type c18RMCall struct {
 	Pre  int  `json:"pre,omitempty"`
 	In   int  `json:"in,omitempty"`
 	Fail bool `json:"fail,omitempty"`
+	Boom bool `json:"boom,omitempty"` // create panics (recovered by the client goroutine)
 }
 
 type c18RMScn struct {
@@ -372,6 +457,7 @@ func (c *c18Closer) Close() error {
 
 func c18GenRM(r interface{ Intn(int) int }) c18RMScn {
 	sc := c18RMScn{Keys: 1 + r.Intn(3), Sets: r.Intn(3)}
+	booms := r.Intn(2) == 0 // half of the scenarios contain panicking create functions
 	nclients := 2 + r.Intn(7)
 	if r.Intn(8) == 0 {
 		nclients = 16 + r.Intn(33)
@@ -384,7 +470,11 @@ func c18GenRM(r interface{ Intn(int) int }) c18RMScn {
 			if r.Intn(3) == 0 {
 				in = 8 + r.Intn(3)
 			}
-			calls = append(calls, c18RMCall{K: r.Intn(sc.Keys), Pre: c18RandDelay(r), In: in, Fail: r.Intn(8) == 0})
+			rc := c18RMCall{K: r.Intn(sc.Keys), Pre: c18RandDelay(r), In: in, Fail: r.Intn(8) == 0}
+			if booms && r.Intn(8) == 0 {
+				rc.Boom, rc.Fail = true, false
+			}
+			calls = append(calls, rc)
 		}
 		sc.Clients = append(sc.Clients, calls)
 	}
@@ -399,6 +489,7 @@ func c18RunRM(m *vk.M, idx int, sc c18RMScn) bool {
 		mu      sync.Mutex
 		created []*c18Closer // successful creates
 		ncreate int64        // create callbacks entered
+		npanic  int64        // Get calls that panicked (own create, or sharing a panicked flight)
 		nextID  int64
 		wg      sync.WaitGroup
 		start   = make(chan struct{})
@@ -427,19 +518,33 @@ func c18RunRM(m *vk.M, idx int, sc c18RMScn) bool {
 			for j, c := range sc.Clients[ci] {
 				c := c
 				c18Delay(c.Pre)
-				res, err := rm.Get(fmt.Sprintf("k%d", c.K), func() (io.Closer, error) {
-					atomic.AddInt64(&ncreate, 1)
-					id := atomic.AddInt64(&nextID, 1)
-					c18Delay(c.In)
-					if c.Fail {
-						return nil, c18Err{id}
-					}
-					cl := &c18Closer{id: id, key: c.K, fail: id%5 == 0}
-					mu.Lock()
-					created = append(created, cl)
-					mu.Unlock()
-					return cl, nil
+				var res io.Closer
+				var err error
+				// a panicking create reaches its own caller; callers sharing that flight get a
+				// nil value from the single flight, which Get cannot convert: both are recovered
+				// here and counted as failed Gets (the statement says nothing about them)
+				_, panicked := vk.Recover(func() {
+					res, err = rm.Get(fmt.Sprintf("k%d", c.K), func() (io.Closer, error) {
+						atomic.AddInt64(&ncreate, 1)
+						id := atomic.AddInt64(&nextID, 1)
+						c18Delay(c.In)
+						if c.Boom {
+							panic(c18Panic{id})
+						}
+						if c.Fail {
+							return nil, c18Err{id}
+						}
+						cl := &c18Closer{id: id, key: c.K, fail: id%5 == 0}
+						mu.Lock()
+						created = append(created, cl)
+						mu.Unlock()
+						return cl, nil
+					})
 				})
+				if panicked {
+					atomic.AddInt64(&npanic, 1)
+					err = c18Err{-1}
+				}
 				g := got{client: ci, idx: j, key: c.K, err: err}
 				if err == nil {
 					cl, ok := res.(*c18Closer)
@@ -512,6 +617,7 @@ func c18RunRM(m *vk.M, idx int, sc c18RMScn) bool {
 	}
 	m.Count("resourcemanager_gets", int64(ngets))
 	m.Count("resourcemanager_get_errors", int64(nerr))
+	m.Count("resourcemanager_gets_panicked_and_recovered", atomic.LoadInt64(&npanic))
 	m.Count("resourcemanager_create_callbacks", atomic.LoadInt64(&ncreate))
 	m.Count("resourcemanager_resources_closed", int64(len(created)+len(sets)))
 	nontrivial := ngets-nerr > len(created) // some Get was served without creating
@@ -531,9 +637,17 @@ type c18MROp struct {
 }
 
 type c18MRScn struct {
-	GenDelay int         `json:"gen"`
-	Procs    int         `json:"procs"`
-	Clients  [][]c18MROp `json:"clients"`
+	GenDelay int `json:"gen"`
+	Procs    int `json:"procs"`
+	// BoomMod > 0: the generate callback panics for every id divisible by it (the Take
+	// that triggered it panics and is recovered by the client goroutine)
+	BoomMod int64 `json:"boommod,omitempty"`
+	// Rounds > 0: lock-step mode. All Workers leave a spinning barrier together, report
+	// the resource they hold as broken and take again (several reports of the same
+	// breakage racing with the regenerating Take); Clients is unused.
+	Rounds  int         `json:"rounds,omitempty"`
+	Workers int         `json:"workers,omitempty"`
+	Clients [][]c18MROp `json:"clients,omitempty"`
 }
 
 type c18MRes struct {
@@ -544,6 +658,9 @@ type c18MRes struct {
 func c18GenMR(r interface{ Intn(int) int }) c18MRScn {
 	sc := c18MRScn{GenDelay: c18RandDelay(r)}
 	tight := r.Intn(2) == 0
+	if r.Intn(3) == 0 {
+		sc.BoomMod = int64(3 + r.Intn(5))
+	}
 	nclients := 2 + r.Intn(7)
 	if r.Intn(8) == 0 {
 		nclients = 16 + r.Intn(17)
@@ -568,20 +685,35 @@ func c18GenMR(r interface{ Intn(int) int }) c18MRScn {
 	return sc
 }
 
+func c18GenMRRounds(r interface{ Intn(int) int }) c18MRScn {
+	sc := c18MRScn{Workers: 2 + r.Intn(7), Rounds: 150 + r.Intn(250)}
+	if r.Intn(3) == 0 {
+		sc.GenDelay = 1 + r.Intn(5)
+	}
+	if r.Intn(4) == 0 {
+		sc.BoomMod = int64(5 + r.Intn(20))
+	}
+	return sc
+}
+
 func c18RunMR(m *vk.M, idx int, sc c18MRScn) bool {
 	desc := fmt.Sprintf("case=%d;mr;%s", idx, vk.JSON(sc))
 	m.Current(desc)
+	nworkers := len(sc.Clients)
+	if sc.Rounds > 0 {
+		nworkers = sc.Workers
+	}
 	var (
 		mu       sync.Mutex
 		gens     []*c18MRes
 		nextID   int64
 		inGen    int32
 		overlap  int32
+		ngenBoom int64
 		wg       sync.WaitGroup
 		start    = make(chan struct{})
-		gate     = c18NewGate(int32(len(sc.Clients)))
+		gate     = c18NewGate(int32(nworkers))
 		foreign  = &c18MRes{id: -7}
-		equalCnt int64
 	)
 	mr := NewManagedResource(func() any {
 		if atomic.AddInt32(&inGen, 1) > 1 {
@@ -589,6 +721,11 @@ func c18RunMR(m *vk.M, idx int, sc c18MRScn) bool {
 		}
 		res := &c18MRes{g1: vk.Seq(), id: atomic.AddInt64(&nextID, 1)}
 		c18Delay(sc.GenDelay)
+		if sc.BoomMod > 0 && res.id%sc.BoomMod == 0 {
+			atomic.AddInt64(&ngenBoom, 1)
+			atomic.AddInt32(&inGen, -1)
+			panic(c18Panic{res.id})
+		}
 		res.g2 = vk.Seq()
 		mu.Lock()
 		gens = append(gens, res)
@@ -596,7 +733,6 @@ func c18RunMR(m *vk.M, idx int, sc c18MRScn) bool {
 		atomic.AddInt32(&inGen, -1)
 		return res
 	}, func(a, b any) bool {
-		atomic.AddInt64(&equalCnt, 1)
 		x, _ := a.(*c18MRes)
 		y, _ := b.(*c18MRes)
 		return x != nil && y != nil && x.id == y.id
@@ -605,42 +741,59 @@ func c18RunMR(m *vk.M, idx int, sc c18MRScn) bool {
 		client, idx int
 		op          int
 		call, ret   int64
-		id          int64 // take: id returned (0 = nil/foreign); mark: id marked
+		id          int64 // take: id returned (0 = nil/foreign/panicked); mark: id marked
+		boom        bool  // the Take panicked (generate panicked)
 	}
-	recs := make([][]rec, len(sc.Clients))
-	for ci := range sc.Clients {
-		recs[ci] = make([]rec, 0, len(sc.Clients[ci]))
+	recs := make([][]rec, nworkers)
+	take := func(ci, j int, last **c18MRes) rec {
+		r := rec{client: ci, idx: j, op: 0}
+		r.call = vk.Seq()
+		var v any
+		_, r.boom = vk.Recover(func() { v = mr.Take() })
+		r.ret = vk.Seq()
+		if res, ok := v.(*c18MRes); ok && res != nil {
+			r.id = res.id
+			*last = res
+		}
+		return r
+	}
+	mark := func(ci, j int, what *c18MRes) rec {
+		r := rec{client: ci, idx: j, op: 1, id: what.id}
+		r.call = vk.Seq()
+		mr.MarkBroken(what)
+		r.ret = vk.Seq()
+		return r
+	}
+	arrive := make([]int32, sc.Rounds)
+	for ci := 0; ci < nworkers; ci++ {
 		wg.Add(1)
 		go func(ci int) {
 			defer wg.Done()
 			<-start
 			gate.wait()
 			var last *c18MRes
+			if sc.Rounds > 0 {
+				for j := 0; j < sc.Rounds; j++ {
+					for last == nil { // first round, or the previous Take panicked
+						recs[ci] = append(recs[ci], take(ci, j, &last))
+					}
+					c18SpinBarrier(&arrive[j], int32(nworkers))
+					recs[ci] = append(recs[ci], mark(ci, j, last))
+					last = nil
+					recs[ci] = append(recs[ci], take(ci, j, &last))
+				}
+				return
+			}
 			for j, op := range sc.Clients[ci] {
 				c18Delay(op.Pre)
-				r := rec{client: ci, idx: j, op: op.Op}
 				switch {
 				case op.Op == 0 || last == nil:
-					r.op = 0
-					r.call = vk.Seq()
-					v := mr.Take()
-					r.ret = vk.Seq()
-					if res, ok := v.(*c18MRes); ok && res != nil {
-						r.id = res.id
-						last = res
-					}
+					recs[ci] = append(recs[ci], take(ci, j, &last))
 				case op.Op == 1:
-					r.id = last.id
-					r.call = vk.Seq()
-					mr.MarkBroken(last)
-					r.ret = vk.Seq()
+					recs[ci] = append(recs[ci], mark(ci, j, last))
 				default:
-					r.id = foreign.id
-					r.call = vk.Seq()
-					mr.MarkBroken(foreign)
-					r.ret = vk.Seq()
+					recs[ci] = append(recs[ci], mark(ci, j, foreign))
 				}
-				recs[ci] = append(recs[ci], r)
 			}
 		}(ci)
 	}
@@ -665,37 +818,71 @@ func c18RunMR(m *vk.M, idx int, sc c18MRScn) bool {
 	for _, g := range gens {
 		byID[g.id] = g
 	}
-	var takes, marks []rec
+	var ntakes, nmarks, nboom int
+	firstMarkRet := map[int64]rec{}  // per resource id: the MarkBroken call that returned first
+	firstMarkCall := map[int64]rec{} // per resource id: the MarkBroken call that began first
 	for ci := range recs {
 		for _, r := range recs[ci] {
-			if r.op == 0 {
-				takes = append(takes, r)
-			} else if r.id > 0 {
-				marks = append(marks, r)
+			if r.op != 1 || r.id <= 0 {
+				continue
+			}
+			nmarks++
+			if f, ok := firstMarkRet[r.id]; !ok || r.ret < f.ret {
+				firstMarkRet[r.id] = r
+			}
+			if f, ok := firstMarkCall[r.id]; !ok || r.call < f.call {
+				firstMarkCall[r.id] = r
 			}
 		}
 	}
-	for _, t := range takes {
-		g := byID[t.id]
-		if g == nil || g.g2 > t.ret {
-			fail("take-returned-ungenerated", "client %d op %d: Take returned id %d which is not the product of a finished generate callback", t.client, t.idx, t.id)
-			break
-		}
-	}
-	for _, mk := range marks {
-		for _, t := range takes {
-			if t.call > mk.ret && t.id == mk.id {
+	for ci := range recs {
+		for _, t := range recs[ci] {
+			if t.op != 0 {
+				continue
+			}
+			ntakes++
+			if t.boom {
+				nboom++
+				continue
+			}
+			g := byID[t.id]
+			if g == nil || g.g2 > t.ret {
+				fail("take-returned-ungenerated", "client %d op %d: Take returned id %d which is not the product of a finished generate callback", t.client, t.idx, t.id)
+				continue
+			}
+			if mk, ok := firstMarkRet[t.id]; ok && t.call > mk.ret {
 				fail("broken-resource-returned", "MarkBroken(#%d) by client %d returned at stamp %d, yet the Take of client %d begun at stamp %d returned #%d again instead of regenerating",
 					mk.id, mk.client, mk.ret, t.client, t.call, t.id)
 			}
 		}
 	}
-	m.Count("managedresource_takes", int64(len(takes)))
-	m.Count("managedresource_markbroken", int64(len(marks)))
+	// a replacement is generated only after the resource it replaces was reported broken:
+	// generation j+1 must be preceded by a MarkBroken call whose argument is generation j
+	// (a stale report about an older resource must leave the current one alone)
+	sort.Slice(gens, func(i, j int) bool { return gens[i].g1 < gens[j].g1 })
+	for j := 1; j < len(gens); j++ {
+		prev, next := gens[j-1], gens[j]
+		if mk, ok := firstMarkCall[prev.id]; !ok || mk.call > next.g1 {
+			when := "never"
+			if ok {
+				when = fmt.Sprintf("first at stamp %d", mk.call)
+			}
+			fail("replaced-without-being-reported-broken", "resource #%d (generated at stamps [%d,%d]) was replaced by #%d, whose generation began at stamp %d, although MarkBroken(#%d) was called %s: a report about an older resource discarded the current one (%d generations, %d MarkBroken calls on %d distinct resources)",
+				prev.id, prev.g1, prev.g2, next.id, next.g1, prev.id, when, len(gens), nmarks, len(firstMarkCall))
+			break
+		}
+	}
+	m.Count("managedresource_takes", int64(ntakes))
+	m.Count("managedresource_takes_panicked_in_generate", int64(nboom))
+	m.Count("managedresource_markbroken", int64(nmarks))
 	m.Count("managedresource_generations", int64(len(gens)))
-	m.Case(fmt.Sprintf("mr%d/%d/%d/%d", len(sc.Clients), len(takes), len(marks), len(gens)), len(gens) >= 2)
+	if sc.Rounds > 0 {
+		m.Count("managedresource_lockstep_rounds", int64(sc.Rounds))
+	}
+	m.Case(fmt.Sprintf("mr%d/%d/%d/%d/%d/%d", nworkers, sc.Rounds, ntakes, nmarks, len(gens), nboom), len(gens) >= 2)
 	if len(gens) >= 2 && m.WantSample() && idx%43 == 1 {
-		m.Sample(map[string]any{"kind": "managedresource", "clients": len(sc.Clients), "takes": len(takes), "markbroken_of_taken": len(marks), "generations": len(gens)})
+		m.Sample(map[string]any{"kind": "managedresource", "workers": nworkers, "lockstep_rounds": sc.Rounds, "takes": ntakes, "takes_panicked_in_generate": nboom,
+			"markbroken_of_taken": nmarks, "distinct_resources_reported_broken": len(firstMarkCall), "generations": len(gens)})
 	}
 	return true
 }
